@@ -2258,14 +2258,18 @@ func (leases *Leases) Acquire(name string, nodeID uint64) (*Lease, error) {
 	leases.mu.Lock()
 	defer leases.mu.Unlock()
 
+	// The caller gets a copy: it reads the lease (the HTTP handler marshals it)
+	// after the lock is released, while other requests change the entry.
 	l := leases.m[name]
 	if l != nil {
 		if time.Now().After(l.Expiration) || l.Owner == nodeID {
 			l.Expiration = time.Now().Add(leases.d)
 			l.Owner = nodeID
-			return l, nil
+			cp := *l
+			return &cp, nil
 		}
-		return l, errors.New("another node has the lease")
+		cp := *l
+		return &cp, errors.New("another node has the lease")
 	}
 
 	l = &Lease{
@@ -2276,7 +2280,8 @@ func (leases *Leases) Acquire(name string, nodeID uint64) (*Lease, error) {
 
 	leases.m[name] = l
 
-	return l, nil
+	cp := *l
+	return &cp, nil
 }
 
 // MarshalTime converts t to nanoseconds since epoch. A zero time returns 0.
